@@ -1,5 +1,5 @@
 From Coq Require Import Extraction ExtrOcamlBasic.
-From FluteV Require Import Model.Partition Model.BlockEnc Spec.C07Spec Spec.C08Spec.
+From FluteV Require Import Model.Partition Model.BlockEnc Model.StreamPos Spec.C07Spec Spec.C08Spec.
 Extraction Language OCaml.
-Extraction "../ocaml/gen/c08_model.ml" blocks_of_buffer blocks_of_stream est_init enc_run total_shards
+Extraction "../ocaml/gen/c08_model.ml" blocks_of_buffer blocks_of_stream transfer_blocks est_init enc_run total_shards
   P_C08_transfer eqb_pkts rfc_partition lenN filedesc_accepts known_D30.
